@@ -418,8 +418,11 @@ func runL17() func(int64, map[sharing.ID]string) *obs {
 
 func protocols(tier string) []protoSpec {
 	n, t := 3, 2
+	// the OT-based protocols cost (n-1) base-OT batches per party and run: fewer parties there
+	no, to := 2, 2
 	if tier == "thorough" {
 		n, t = 5, 3
+		no, to = 3, 2
 	}
 	ps := []protoSpec{
 		{Name: "session", N: n, D: t, Family: "session", Run: runSession(n)},
@@ -427,8 +430,8 @@ func protocols(tier string) []protoSpec {
 		{Name: "canetti", N: n, D: t, Family: "canetti", Run: runCanetti(n, t)},
 		{Name: "hjky", N: n, D: t, Family: "hjky", Run: runHjky(n, t)},
 		{Name: "redistribute", N: n, D: t, Family: "redistribute", Run: runRedistribute(n, t)},
-		{Name: "dkls23-bbot", N: n, D: t, Family: "dkls23-bbot", Signing: true, Run: runDkls(n, t, "bbot", "k256")},
-		{Name: "dkls23-softspoken", N: n, D: t, Family: "dkls23-softspoken", Signing: true, Run: runDkls(n, t, "softspoken", "k256")},
+		{Name: "dkls23-bbot", N: no, D: to, Family: "dkls23-bbot", Signing: true, Heavy: true, Run: runDkls(no, to, "bbot", "k256")},
+		{Name: "dkls23-softspoken", N: no, D: to, Family: "dkls23-softspoken", Signing: true, Heavy: true, Run: runDkls(no, to, "softspoken", "k256")},
 		{Name: "lindell22-bip340", N: n, D: t, Family: "lindell22", Signing: true, Run: runL22(n, t, "bip340")},
 		{Name: "lindell22-schnorr-k256", N: n, D: t, Family: "lindell22", Signing: true, Run: runL22(n, t, "schnorr-k256")},
 		{Name: "lindell22-mina", N: n, D: t, Family: "lindell22", Signing: true, Run: runL22(n, t, "mina")},
@@ -439,7 +442,7 @@ func protocols(tier string) []protoSpec {
 		ps = append(ps,
 			protoSpec{Name: "lindell22-schnorr-p256", N: n, D: t, Family: "lindell22", Signing: true, Run: runL22(n, t, "schnorr-p256")},
 			protoSpec{Name: "lindell22-schnorr-k256-neg", N: n, D: t, Family: "lindell22", Signing: true, Run: runL22(n, t, "schnorr-k256-neg")},
-			protoSpec{Name: "dkls23-bbot-p256", N: n, D: t, Family: "dkls23-bbot", Signing: true, Run: runDkls(n, t, "bbot", "p256")},
+			protoSpec{Name: "dkls23-bbot-p256", N: 2, D: 2, Family: "dkls23-bbot", Signing: true, Heavy: true, Run: runDkls(2, 2, "bbot", "p256")},
 			protoSpec{Name: "boldyreva-long-pop", N: n, D: t, Family: "boldyreva", Run: runBls(n, t, "long", "pop")},
 		)
 	}
